@@ -8,6 +8,7 @@ import (
 	"github.com/KevoDB/kevo/pkg/common/iterator"
 	"github.com/KevoDB/kevo/pkg/common/iterator/bounded"
 	"github.com/KevoDB/kevo/pkg/common/iterator/composite"
+	"github.com/KevoDB/kevo/pkg/verifhook"
 	"github.com/KevoDB/kevo/pkg/wal"
 )
 
@@ -260,10 +261,12 @@ func (tx *TransactionImpl) Commit() error {
 			}
 		}
 
+		verifhook.Point("tx.commit.before_apply")
 		// Apply the batch atomically
 		err = tx.storage.ApplyBatch(walBatch)
 	}
 
+	verifhook.Point("tx.commit.before_unlock")
 	// Release the write lock
 	tx.releaseWriteLock()
 
@@ -286,6 +289,7 @@ func (tx *TransactionImpl) Rollback() error {
 		return ErrTransactionClosed
 	}
 
+	verifhook.Point("tx.rollback.begin")
 	// Clear the buffer
 	tx.buffer.Clear()
 
